@@ -56,10 +56,16 @@ func (d *Delete) Unmarshal(b []byte) error {
 		d.NumberOfSPI = numberOfSPI
 
 		b = b[4:]
-		var spi uint32
-		for i := 0; i < len(b); i += 4 {
-			spi = binary.BigEndian.Uint32(b[i : i+4])
-			d.SPIs = append(d.SPIs, spi)
+		if numberOfSPI > 0 {
+			// SPIs are kept as uint32, so only 4-octet SPIs (AH / ESP) can be represented
+			if spiSize != 4 {
+				return errors.Errorf("Delete: Unsupported SPI size %d", spiSize)
+			}
+			var spi uint32
+			for i := 0; i < int(numberOfSPI); i++ {
+				spi = binary.BigEndian.Uint32(b[4*i : 4*i+4])
+				d.SPIs = append(d.SPIs, spi)
+			}
 		}
 	}
 
